@@ -30,6 +30,12 @@ claim("C08", "M", "SMT bounded model checking of MIR (z3)",
 claim("C16", "M", "SMT bounded model checking of MIR (z3)",
       "Kernel level: routing fee arithmetic (compute_fees, saturating variant), cross-module agreement with the forwarding node's fee check, max_htlc_from_capacity; all u64/u32/u8 inputs. The path search, liquidity accounting and scoring are outside the claim.",
       "trusted: rustc MIR dump, engine_m, z3")
+claim("C07", "M", "SMT bounded model checking of MIR (z3)",
+      "Kernel level: claim-package fee kernels (first-attempt fee, RBF bumping incl. BIP-125 rules 3/4 and monotone feerates, anchor-claim feerate strategy, package output value, package locktime) for all amounts/estimates over a stated finite set of transaction weights and <=2 (quick) / <=3 (thorough) inputs. Which outputs are claimed, scripts and the sweeper are outside the claim.",
+      "trusted: rustc MIR dump, engine_m, z3; fee estimator = arbitrary u32 (<= u32::MAX/5 for the anchor strategy); previous feerate <= inputs*1000/weight")
+claim("C11", "M+K", "SMT bounded model checking of MIR (z3); Kani/CBMC harnesses for the BlockLocator ring",
+      "Kernel level: anti-reorg confirmation thresholds of both on-chain event queues (no irreversible conclusion before ANTI_REORG_DELAY confirmations nor before a CSV output matures), heights 1..2^31, all CSV delays; BlockLocator ring operations (Kani) where registered. Equivalence of block-delivery styles is history-quantified and outside the claim.",
+      "trusted: rustc MIR dump, engine_m, z3, Kani/CBMC")
 
 
 def main():
